@@ -1713,6 +1713,10 @@ class LinearOperator(object):
                 )
             )
 
+        if inv_quad_rhs.dim() == 1:
+            # a vector is one column (result_shape above is vector-shaped: no column dimension to strip)
+            inv_quad_rhs = inv_quad_rhs.unsqueeze(-1)
+            result_shape = result_shape + torch.Size([1])
         args = (inv_quad_rhs.expand(*result_shape[:-2], *inv_quad_rhs.shape[-2:]),) + self.representation()
         func = InvQuad.apply
         inv_quad_term = func(self.representation_tree(), *args)
